@@ -771,9 +771,37 @@ def gen_c18_program(seed, start, count):
     for idx in range(start, start + count):
         mod = f'c{idx}'
         named = rng.random() < 0.5
+        # unsized targets: a bare trait object (one or several bounds), a slice, `str`, a `?Sized` parameter
+        if rng.random() < 0.2:
+            both = rng.random() < 0.7
+            traits = 'Deref, DerefMut' if both else 'Deref'
+            entry = rng.choice(['attr', 'derive'])
+            head = f'#[derive_ex({traits})]' if entry == 'attr' else f'#[derive(Ex)] #[derive_ex({traits})]'
+            fldn = rng.choice(['inner', 'r#type', 'r#match']) if named else '0'
+            uk = rng.choice(['dyn Tr', 'dyn Tr + Send', 'dyn Tr + Send + Sync', '[u8]', 'str', 'T', "dyn Tr + 'static"])
+            if uk == 'T':
+                decl = (f'pub struct X<T: ?Sized> {{ pub {fldn}: T }}' if named else 'pub struct X<T: ?Sized>(pub T);')
+                ctor = f'X {{ {fldn}: 7u8 }}' if named else 'X(7u8)'
+                body = (f'pub mod {mod} {{ use super::*;\n pub trait Tr {{ fn v(&self) -> u8; }} impl Tr for u8 {{ fn v(&self) -> u8 {{ *self }} }}\n'
+                        f' {head} {decl}\n pub fn run() {{ let mut n = 0u32; let mut b: Box<X<dyn Tr>> = Box::new({ctor});\n'
+                        f'  n += 1; if !std::ptr::eq(&**b as *const dyn Tr as *const u8, &b.{fldn} as *const dyn Tr as *const u8) {{ println!("{mod} FAIL deref does not return the field itself"); }}\n'
+                        f'  n += 1; if (**b).v() != 7 {{ println!("{mod} FAIL deref target does not behave like the field"); }}\n')
+                if both:
+                    body += (f'  n += 1; {{ let p1 = &mut **b as *mut dyn Tr as *mut u8; let p2 = &mut b.{fldn} as *mut dyn Tr as *mut u8; '
+                             f'if p1 != p2 {{ println!("{mod} FAIL deref_mut does not return the field itself"); }} }}\n')
+                body += f'  println!("{mod} ok {{}}", n); }}\n}}\n'
+            else:
+                decl = (f'pub struct X {{ pub {fldn}: {uk} }}' if named else f'pub struct X(pub {uk});')
+                body = (f'pub mod {mod} {{ use super::*;\n pub trait Tr {{ fn v(&self) -> u8; }}\n {head} {decl}\n'
+                        f' pub fn same(x: &X) -> bool {{ let t: &<X as Deref>::Target = &**x; same_ty(t, &x.{fldn}); '
+                        f'std::ptr::eq(t as *const _ as *const u8, &x.{fldn} as *const _ as *const u8) }}\n'
+                        f' pub fn run() {{ println!("{mod} ok 1"); }}\n}}\n')
+            src += body
+            cases.append(dict(mod=mod, item=f'{head} {decl}', traits=traits.split(', '), shape=('named' if named else 'tuple') + '-unsized', raw=fldn.startswith('r#')))
+            continue
         generic = rng.random() < 0.4
         ty, init, write, after = rng.choice(targets)
-        fld = 'inner' if named else '0'
+        fld = rng.choice(['inner', 'inner', 'r#type']) if named else '0'
         fty = 'T' if generic else ty
         g = rng.choice(['<T>', '<T: Clone>', '<T> ']) if generic else ''
         where = ' where T: Sized' if generic and rng.random() < 0.3 else ''
@@ -783,8 +811,8 @@ def gen_c18_program(seed, start, count):
         entry = rng.choice(['attr', 'derive'])
         head = f'#[derive_ex({traits})]' if entry == 'attr' else f'#[derive(Ex)] #[derive_ex({traits})]'
         if named:
-            decl = f'pub struct X{g}{where} {{ pub inner: {fty} }}'
-            ctor = f'X {{ inner: {init} }}'
+            decl = f'pub struct X{g}{where} {{ pub {fld}: {fty} }}'
+            ctor = f'X {{ {fld}: {init} }}'
         else:
             decl = f'pub struct X{g}(pub {fty}){where};'
             ctor = f'X({init})'
@@ -797,7 +825,7 @@ def gen_c18_program(seed, start, count):
             body += f'  n += 1; {write} if !({after.replace("F", fld)}) {{ println!("{mod} FAIL write through deref_mut did not land in the field"); }}\n'
         body += f'  println!("{mod} ok {{}}", n); }}\n}}\n'
         src += body
-        cases.append(dict(mod=mod, item=f'{head} {decl}', traits=traits.split(', '), shape=('named' if named else 'tuple') + ('-generic' if generic else ''), raw=False))
+        cases.append(dict(mod=mod, item=f'{head} {decl}', traits=traits.split(', '), shape=('named' if named else 'tuple') + ('-generic' if generic else ''), raw=fld.startswith('r#')))
     src += 'fn main() { ' + ' '.join(f"{c['mod']}::run();" for c in cases) + ' }\n'
     return src, cases
 
